@@ -985,6 +985,114 @@ def run_cpp_type(task):
     return res
 
 
+_CPP_RANGES = {
+    "::std::int32_t": (-(2**31), 2**31 - 1),
+    "::std::uint32_t": (0, 2**32 - 1),
+    "::std::int64_t": (-(2**63), 2**63 - 1),
+    "::std::uint64_t": (0, 2**64 - 1),
+}
+
+# (function, rendered name is not needed, number of integer args, result kind, leading boolean arg)
+_INTERMEDIATE_SHAPES = {
+    "add": (FM.ADDITION, "+", 2, "integer", False),
+    "sub": (FM.SUBTRACTION, "-", 2, "integer", False),
+    "mul": (FM.MULTIPLICATION, "*", 2, "integer", False),
+    "max2": (FM.MAXIMUM, "$max", 2, "integer", False),
+    "max3": (FM.MAXIMUM, "$max", 3, "integer", False),
+    "less": (FM.LESS, "<", 2, "boolean", False),
+    "eq": (FM.EQUALITY, "==", 2, "boolean", False),
+    "choice": (FM.CHOICE, "?:", 2, "integer", True),
+}
+
+
+def _intermediate_expression(shape, ranges, wrap):
+    """The operator node `shape` with the given (lo, hi) per integer position
+    (result first when the result is an integer); wrap turns a bound into the
+    IR's string."""
+    fn, name, nargs, rkind, lead_bool = _INTERMEDIATE_SHAPES[shape]
+    lv = lambda t: ir_data.Expression(
+        builtin_reference=ir_data.Reference(canonical_name=ir_data.CanonicalName(object_path=["$logical_value"])), type=t)
+    its = []
+    for lo, hi in ranges:
+        it = ir_data.IntegerType(modulus="1", modular_value="0")
+        it.minimum_value = wrap(lo)
+        it.maximum_value = wrap(hi)
+        its.append(it)
+    arg_its = its[1:] if rkind == "integer" else its
+    args = [lv(ir_data.ExpressionType(integer=it)) for it in arg_its]
+    if lead_bool:
+        args = [lv(ir_data.ExpressionType(boolean=ir_data.BooleanType()))] + args
+    rtype = ir_data.ExpressionType(integer=its[0]) if rkind == "integer" else ir_data.ExpressionType(boolean=ir_data.BooleanType())
+    return ir_data.Expression(function=ir_data.Function(function=fn, args=args, function_name=ir_data.Word(text=name)), type=rtype)
+
+
+def _parse_template_types(rendered):
+    """IntermediateT, ResultT, [ArgT...] of `::emboss::support::Op</**/I, R, A...>(...)`."""
+    inner = rendered[rendered.index("</**/") + 5:rendered.index(">(")]
+    parts = [x.strip() for x in inner.split(",")]
+    return parts[0], parts[1], parts[2:]
+
+
+def run_intermediate(task):
+    """header_generator._render_builtin_operation: the IntermediateT / ResultT /
+    ArgT the back end picks for one operator node whose result and integer
+    operands carry symbolic ranges.  Under the front end's 64-bit gate (one
+    64-bit type holds the result and all operands) IntermediateT must hold the
+    result range and every operand range -- the runtime evaluates the operator
+    in IntermediateT -- and ResultT/ArgT must hold their own range."""
+    shape = task[1]
+    fn, name, nargs, rkind, lead_bool = _INTERMEDIATE_SHAPES[shape]
+    npos = nargs + (1 if rkind == "integer" else 0)
+    res = TaskResult(task)
+    holder = {}
+
+    def body(c):
+        rng = []
+        for i in range(npos):
+            lo, hi = z3.Int("lo%d" % i), z3.Int("hi%d" % i)
+            c.assume(lo < hi)
+            rng.append((lo, hi))
+        # the gate: one signed or one unsigned 64-bit type holds every position
+        s64 = z3.And(*[z3.And(lo >= -(2**63), hi <= 2**63 - 1) for lo, hi in rng])
+        u64 = z3.And(*[z3.And(lo >= 0, hi <= 2**64 - 1) for lo, hi in rng])
+        c.assume(z3.Or(s64, u64))
+        holder["rng"] = rng
+        e = _intermediate_expression(shape, rng, lambda t: SymIntStr(SymInt(t)))
+        return header_generator._render_builtin_operation(e, None, None, None)
+
+    def on_path(pr):
+        c = pr.ctx
+        rng = holder["rng"]
+
+        def describe(model):
+            return {"op": "intermediate", "shape": shape,
+                    "ranges": [[pysym.model_int(model, lo), pysym.model_int(model, hi)] for lo, hi in rng]}
+
+        ob = Obl(res, c, describe)
+        if pr.kind == "raise":
+            ob.crashed(pr.exc)
+            return
+        it, rt, ats = _parse_template_types(str(pr.value))
+        if it not in _CPP_RANGES:
+            ob.prove("intermediate:is_a_64bit_integer_type", z3.BoolVal(False))
+        else:
+            tl, th = _CPP_RANGES[it]
+            ob.prove("intermediate:holds_result_and_operands", z3.And(*[z3.And(lo >= tl, hi <= th) for lo, hi in rng]))
+        own = ([rt] + ats[(1 if lead_bool else 0):]) if rkind == "integer" else ats
+        for (lo, hi), t in zip(rng, own):
+            if t not in _CPP_RANGES:
+                ob.prove("intermediate:own_type_is_integer", z3.BoolVal(False))
+            else:
+                tl, th = _CPP_RANGES[t]
+                ob.prove("intermediate:own_type_holds_range", z3.And(lo >= tl, hi <= th))
+        res.witnesses += 1
+        if res.sample is None:
+            res.sample = {"task": repr(task), "rendered": str(pr.value)[:200]}
+
+    _explore(res, body, on_path, max_paths=200000)
+    return res
+
+
 RUNNERS = {
     "bin": run_binary,
     "max": run_max,
@@ -996,6 +1104,7 @@ RUNNERS = {
     "gate_bounds": run_gate_bounds,
     "gate_expr": run_gate_expression,
     "cpp_type": run_cpp_type,
+    "intermediate": run_intermediate,
 }
 
 
@@ -1141,6 +1250,21 @@ def replay(cand):
             s64 = all(lo >= -(2**63) and hi <= 2**63 - 1 for lo, hi in rs)
             u64 = all(lo >= 0 and hi <= 2**64 - 1 for lo, hi in rs)
             return bool(errs) == (s64 or u64), "errors=%d s64=%r u64=%r" % (len(errs), s64, u64)
+        if op == "intermediate":
+            rs = [tuple(r) for r in cand["ranges"]]
+            shape = cand["shape"]
+            fn, name, nargs, rkind, lead_bool = _INTERMEDIATE_SHAPES[shape]
+            e = _intermediate_expression(shape, rs, str)
+            rendered = header_generator._render_builtin_operation(e, None, None, None)
+            it, rt, ats = _parse_template_types(rendered)
+            tl, th = _CPP_RANGES.get(it, (1, 0))
+            bad = [r for r in rs if not (tl <= r[0] and r[1] <= th)]
+            own = ([rt] + ats[(1 if lead_bool else 0):]) if rkind == "integer" else ats
+            for r, t in zip(rs, own):
+                ol, oh = _CPP_RANGES.get(t, (1, 0))
+                if not (ol <= r[0] and r[1] <= oh):
+                    bad.append((t, r))
+            return bool(bad), "IntermediateT=%s ResultT=%s ArgT=%s for ranges %s; not held: %s" % (it, rt, ats, rs, bad)
         if op == "cpp_type":
             t = header_generator._cpp_integer_type_for_range(cand["min"], cand["max"])
             R = {"::std::int32_t": (-(2**31), 2**31 - 1), "::std::uint32_t": (0, 2**32 - 1),
@@ -1283,6 +1407,10 @@ def build_tasks(tier):
     tasks.append(("gate_expr", 2))
     tasks.append(("gate_expr", 2, "cmp"))
     tasks.append(("cpp_type",))
+    for shape in _INTERMEDIATE_SHAPES:
+        if tier == "quick" and shape == "max3":
+            continue  # ~50k paths; thorough only
+        tasks.append(("intermediate", shape))
     # tasks whose modulus becomes symbolic (two constants) are the slow ones
     def weight(t):
         return -sum(1 for x in repr(t).split("'const'")[1:])
@@ -1401,7 +1529,7 @@ def main(tier):
             "expression_bounds._greatest_common_divisor", "expression_bounds._assert_integer_constraints",
             "expression_bounds._set_integer_constraints_from_physical_type", "ir_util.constant_value",
             "constraints._integer_bounds_errors", "constraints._integer_bounds_errors_for_expression",
-            "header_generator._cpp_integer_type_for_range"],
+            "header_generator._cpp_integer_type_for_range", "header_generator._render_builtin_operation"],
         "bounds": {"max_modulus_enumerated": bounds["M"], "max_modulus_for_3_argument_max": bounds["M3"],
                    "operand_bounds": "unbounded integers or +-infinity (symbolic)", "operand_values": "unbounded integers",
                    "outside": "moduli above the bound; $max arity > 3; congruence of var*var products proven on the linearised product"},
